@@ -85,6 +85,15 @@ def encode(content, error=None, version=None, mode=None, mask=None,
                                 f'Proposal: version {get_version_name(guessed_version)}')
     if error is None and version != consts.VERSION_M1:
         error = consts.ERROR_LEVEL_L
+    if version != guessed_version:
+        # A requested version which is greater than the minimal version may use
+        # longer character count indicators, check that the data actually fits
+        try:
+            fits = consts.SYMBOL_CAPACITY[version][error] >= segments.bit_length_with_overhead(version, eci)
+        except KeyError:
+            fits = False
+        if not fits:
+            raise DataOverflowError(f'The provided data does not fit into version "{get_version_name(version)}"')
     is_micro = version < 1
     mask = normalize_mask(mask, is_micro)
     return _encode(segments, error, version, mask, eci, boost_error)
